@@ -3001,10 +3001,43 @@ coap_handle_request_put_block(coap_context_t *context,
   lg_srcv->last_mid = pdu->mid;
   lg_srcv->last_type = pdu->type;
 
-  chunk = (size_t)1 << (block.szx + 4);
-  update_data = 0;
   saved_num = block.num;
   saved_offset = offset;
+
+  if (block_option == COAP_OPTION_BLOCK1 && !block.bert) {
+    /*
+     * The blocks received are tracked by number in units of the block size of
+     * this transfer (lg_srcv->szx), and a body is complete when all the units
+     * up to its length are in.  That only works if every block is accounted
+     * for in that unit.
+     */
+    if (block.szx < lg_srcv->szx ||
+        (!block.m && offset + length < lg_srcv->total_len) ||
+        (lg_srcv->no_more_seen && offset + length > lg_srcv->total_len)) {
+      /*
+       * A block smaller than the unit covers only part of one, and a final
+       * block somewhere inside the body leaves a hole behind it: either
+       * would let a body with parts that were never received look complete.
+       */
+      coap_add_data(response, sizeof("Block size or length mismatch")-1,
+                    (const uint8_t *)"Block size or length mismatch");
+      response->code = COAP_RESPONSE_CODE(408);
+      goto free_lg_srcv;
+    }
+    if (block.szx > lg_srcv->szx) {
+      /*
+       * Sent with the size the client started with, before it learnt of
+       * the smaller size asked for here: it covers several units.
+       */
+      block.num <<= block.szx - lg_srcv->szx;
+      block.szx = lg_srcv->szx;
+    }
+    if (!block.m)
+      lg_srcv->no_more_seen = 1;
+  }
+
+  chunk = (size_t)1 << (block.szx + 4);
+  update_data = 0;
 
   while (offset < saved_offset + length) {
     if (!check_if_received_block(&lg_srcv->rec_blocks, block.num)) {
